@@ -75,6 +75,7 @@ func main() {
 		"plaintext lengths up to 6 chunks (400 000 bytes); unbounded sizes are not explored",
 		"the plaintext reader is consumed by Read loops with 8 buffer sizes, by io.Copy into a plain Writer (uses a WriteTo of the reader if there is one) and by io.ReadAll",
 		"a result that differs from the baseline under every delivery schedule it was run with is reported once with sched=* (the cause is then the consumption mode / buffer / handed-in bufio, not the schedule)",
+		"header long-line sweep: valid reference-written files with one unknown-type stanza whose opening line is 4000..70000 bytes (1, 3 or 7 arguments; first / after the match / last), 300-byte plaintext; sources: every schedule, caller-side bufio.Readers of 16..131072 bytes, *os.File, os.Pipe",
 		"header-size sweep: valid reference-written files with headers of round-d bytes (round = 4096*k, 64 KiB, 1 MiB; 16 MiB in thorough), one large unknown stanza or many ssh-ed25519-looking stanzas, 5000-byte plaintext behind it",
 		"CLI output stage: printable LF-only UTF-8 texts through a pty (CR stripped), -o -, a pipe and -o FILE; a differing route is a violation only if the pipe route and the shifted control succeed, every run is retried once",
 		"optional interfaces (ByteReader, RuneReader, ByteScanner, WriterTo, ReaderAt, Seeker / StringWriter, ByteWriter, ReaderFrom) are discovered by type assertion on every returned value; one that is absent is recorded, not judged",
@@ -144,6 +145,9 @@ func main() {
 	}
 	if r.Counter("header_size_runs/trickled") == 0 || r.Counter("header_size_runs/bulk") == 0 {
 		r.Inconclusive("the header-size sweep did not run under both a trickled and a bulk schedule")
+	}
+	if r.Counter("header_long_line_pipe_runs") == 0 || r.Counter("header_long_line_os_file_runs") == 0 {
+		r.Inconclusive("the header long-line sweep did not run over an *os.File and a pipe")
 	}
 	if m.binding.Load() == 0 {
 		r.Inconclusive("no read-ahead check was binding (no file longer than the bound)")
